@@ -117,7 +117,7 @@ namespace nmtools::array
             );
             for (size_t i=0; i<array_dim; i++)
                 shape_[i] = ::nmtools::at(array_shape,i);
-            strides_ = strides();
+            strides_ = detail::init_strides<stride_type>(shape_);
             auto array_view = unwrap(view::flatten(array_ref));
             for (size_t i=0; i<n; i++)
                 nmtools::at(buffer_,i) = nmtools::at(array_view,i);
